@@ -181,6 +181,21 @@ theorem outputGlyph_fr {b b' : Buf} {g : Nat} (h : b.outputGlyph g = .ok b') : F
         | (have hC := setOut_fr2 (by assumption); have hA := makeRoomFor_fr2 (by assumption)
            exact ⟨hC.1.trans hA.1, hC.2.trans hA.2⟩))
 
+theorem nextGlyph_fr {b b' : Buf} (h : b.nextGlyph = .ok b') : Fr b b' := by
+  suffices hh : b'.maxOps = b.maxOps ∧ b'.flags = b.flags from ⟨hh.1, hh.2⟩
+  unfold nextGlyph at h
+  simp only [bind, Except.bind, pure, Except.pure] at h
+  repeat' (split at h)
+  all_goals first
+    | (cases h; done)
+    | contradiction
+    | (injection h with h; subst h
+       first
+        | exact ⟨rfl, rfl⟩
+        | (have hZ := makeRoomFor_fr2 (by assumption); exact hZ)
+        | (have hC := setOut_fr2 (by assumption); have hA := makeRoomFor_fr2 (by assumption)
+           exact ⟨hC.1.trans hA.1, hC.2.trans hA.2⟩))
+
 end RbModel.Buf
 
 namespace RbModel.Gsub
